@@ -4,7 +4,7 @@
     (C06). *)
 From PM Require Import Model.Prelude Model.Domain Model.Constraint Model.Automaton Model.Traversal
   Model.DomString Spec.Occ Cert.LabCheck Cert.WfCheck Cert.WinCheck Cert.CharCert
-  Proofs.RunSound Proofs.LawfulDomains Proofs.OccString Proofs.StringRun.
+  Proofs.RunSound Proofs.LawfulDomains Proofs.OccString Proofs.OccProofs Proofs.WfSound Proofs.StringRun Cert.UnambCheck Proofs.StringUnique.
 Local Open Scope N_scope.
 
 (** all four certificate checks on one dumped automaton *)
@@ -61,4 +61,23 @@ Proof.
   intros C1 C2 R1 R2 P1 Q1 P2 Q2 Hne.
   rewrite (s_run_exact A1 L1 rk1 ids1 pats1 pr1 h f1 ms1 i p a C1 R1 P1 Q1 Hne).
   rewrite (s_run_exact A2 L2 rk2 ids2 pats2 pr2 h f2 ms2 j p a C2 R2 P2 Q2 Hne). tauto.
+Qed.
+
+(** ** exactly once (C07): with the unambiguity certificates as well, the number
+    of reports of pattern i at position a is 1 if it occurs there and 0 otherwise *)
+Theorem s_run_exactly_once A L Ls rk ids pats present h fuel ms i p a :
+  s_certified A L rk ids pats present -> s_unamb_certified A Ls ->
+  run string_dom fuel A h = Ok ms ->
+  nth_error pats i = Some p -> nth_error present i = Some true -> p <> [] ->
+  cnt (N.of_nat i) a ms = if occ_stringb p h a then 1%nat else 0%nat.
+Proof.
+  intros C [U1 [U2 [U3 U4]]] R Hp Hpr Hne.
+  pose proof C as [_ [W _]]. pose proof (WfSound.wf_check_sound string_dom string_dom_eq A rk ids W) as HWF.
+  pose proof (s_run_unique A ids HWF Ls U1 U2 U3 U4 h (N.of_nat i) a fuel ms R) as Hle.
+  pose proof (s_run_exact A L rk ids pats present h fuel ms i p a C R Hp Hpr Hne) as Hex.
+  destruct (occ_stringb p h a) eqn:Eo.
+  - apply OccProofs.occ_string_iff in Eo. apply Hex in Eo. apply cnt_pos_in in Eo. lia.
+  - destruct (cnt (N.of_nat i) a ms) eqn:Ec; auto. exfalso.
+    assert (Hpos : (0 < cnt (N.of_nat i) a ms)%nat) by lia. apply cnt_pos_in in Hpos. apply Hex in Hpos.
+    apply OccProofs.occ_string_iff in Hpos. congruence.
 Qed.
